@@ -6,99 +6,8 @@
 // Oracle: evaluation at omega^(1+4 bitrev(j)), omega = exp(i pi/(2m)), computed in binary128;
 // accept iff ||out - exact||_2 <= 8 log2(2m) 2^-53 ||exact||_2.  Tables must be read-only and
 // repeated calls bit-identical.
-#include <quadmath.h>
-#include "../harness/bufs.hpp"
-#include "../harness/oracle.hpp"
-extern "C" {
-#include "cplx/cplx_fft_internal.h"
-#include "cplx/cplx_fft_private.h"
-#include "reim/reim_fft_internal.h"
-#include "reim/reim_fft_private.h"
-}
+#include "../harness/fftoracle.hpp"
 using namespace vf;
-typedef __float128 q128;
-struct cq { q128 re, im; };
-static inline cq cmul(cq a, cq b) { return {a.re * b.re - a.im * b.im, a.re * b.im + a.im * b.re}; }
-static inline cq cadd(cq a, cq b) { return {a.re + b.re, a.im + b.im}; }
-static inline cq csub(cq a, cq b) { return {a.re - b.re, a.im - b.im}; }
-
-struct Tables {
-  uint64_t m; unsigned lg;
-  std::vector<cq> W;            // W[t] = exp(i pi t / (2m)), t < 4m
-  std::vector<long double> Wr, Wi;
-  explicit Tables(uint64_t mm) : m(mm), lg(ilog2(mm)) {
-    W.resize(4 * m); Wr.resize(4 * m); Wi.resize(4 * m);
-    for (uint64_t t = 0; t < 4 * m; ++t) {
-      // exact symmetries keep the table consistent: reduce to the first octant
-      q128 ang = M_PIq * (q128)t / (q128)(2 * m);
-      W[t] = {cosq(ang), sinq(ang)};
-      Wr[t] = (long double)W[t].re; Wi[t] = (long double)W[t].im;
-    }
-    for (uint64_t q4 = 0; q4 < 4; ++q4) { cq e = {q4 == 0 ? 1.0Q : q4 == 2 ? -1.0Q : 0.0Q, q4 == 1 ? 1.0Q : q4 == 3 ? -1.0Q : 0.0Q}; W[q4 * m] = e; Wr[q4 * m] = (long double)e.re; Wi[q4 * m] = (long double)e.im; }
-  }
-  uint64_t expo(uint64_t j) const { return 1 + 4 * (uint64_t)bitrev((uint32_t)j, lg); }  // evaluation point of output j
-  // plain DFT with kernel exp(+2 pi i r k / m), natural order in and out (iterative radix 2)
-  void dft(std::vector<cq>& a) const {
-    for (uint64_t i = 0; i < m; ++i) { uint64_t j = bitrev((uint32_t)i, lg); if (i < j) std::swap(a[i], a[j]); }
-    for (uint64_t len = 2; len <= m; len <<= 1) {
-      uint64_t step = 4 * m / len;  // zeta_len = W[4m/len]
-      for (uint64_t s = 0; s < m; s += len)
-        for (uint64_t k = 0; k < len / 2; ++k) { cq u = a[s + k], v = cmul(a[s + k + len / 2], W[k * step]); a[s + k] = cadd(u, v); a[s + k + len / 2] = csub(u, v); }
-    }
-  }
-  // forward map: in = coefficients (natural order), out[j] = P(omega^(e_j))
-  void forward(const std::vector<cq>& in, std::vector<cq>& out) const {
-    std::vector<cq> b(m);
-    for (uint64_t k = 0; k < m; ++k) b[k] = cmul(in[k], W[k]);
-    dft(b);
-    out.resize(m);
-    for (uint64_t j = 0; j < m; ++j) out[j] = b[bitrev((uint32_t)j, lg)];
-  }
-  // m * inverse map: in[j] = value at omega^(e_j), out[k] = omega^(-k) sum_r y_r zeta^(-rk)
-  void inverse_times_m(const std::vector<cq>& in, std::vector<cq>& out) const {
-    std::vector<cq> y(m);
-    for (uint64_t j = 0; j < m; ++j) { cq v = in[j]; y[bitrev((uint32_t)j, lg)] = {v.re, -v.im}; }
-    dft(y);
-    out.resize(m);
-    for (uint64_t k = 0; k < m; ++k) { cq c = {y[k].re, -y[k].im}; out[k] = cmul(c, W[(4 * m - k) % (4 * m)]); }
-  }
-};
-
-enum Impl { REIM_F_REF, REIM_F_AVX, CPLX_F_REF, CPLX_F_AVX, REIM_I_REF, REIM_I_AVX, CPLX_I_REF, CPLX_I_AVX, NIMPL };
-static const char* IN[] = {"reim_fft_ref", "reim_fft_avx2_fma", "cplx_fft_ref", "cplx_fft_avx2_fma", "reim_ifft_ref", "reim_ifft_avx2_fma", "cplx_ifft_ref", "cplx_ifft_avx2_fma"};
-static bool is_inv(int i) { return i >= REIM_I_REF; }
-static bool is_cplx(int i) { return i == CPLX_F_REF || i == CPLX_F_AVX || i == CPLX_I_REF || i == CPLX_I_AVX; }
-static uint64_t min_m(int i) { return (i == CPLX_F_AVX || i == CPLX_I_AVX) ? 8 : 1; }
-
-struct Runner {
-  int impl; uint64_t m; void* pc; std::vector<std::pair<uint8_t*, size_t>> blocks;
-  Runner(int im, uint64_t mm) : impl(im), m(mm) {
-    AllocTrack& at = alloc_track(); int n0 = at.n; at.on = 1;
-    if (is_cplx(impl)) pc = is_inv(impl) ? (void*)new_cplx_ifft_precomp(m, 0) : (void*)new_cplx_fft_precomp(m, 0);
-    else pc = is_inv(impl) ? (void*)new_reim_ifft_precomp(m, 0) : (void*)new_reim_fft_precomp(m, 0);
-    at.on = 0;
-    for (int i = n0; i < at.n; ++i) if (at.rec[i].live) blocks.push_back({(uint8_t*)at.rec[i].p, at.rec[i].size});
-  }
-  ~Runner() { free(pc); }
-  uint64_t table_hash() const { uint64_t h = 1469598103934665603ull; for (auto& b : blocks) h = fnv(b.first, b.second, h); return h; }
-  void run(double* d) const {
-    switch (impl) {
-      case REIM_F_REF: reim_fft_ref((REIM_FFT_PRECOMP*)pc, d); break;
-      case REIM_F_AVX: reim_fft_avx2_fma((REIM_FFT_PRECOMP*)pc, d); break;
-      case CPLX_F_REF: cplx_fft_ref((CPLX_FFT_PRECOMP*)pc, d); break;
-      case CPLX_F_AVX: cplx_fft_avx2_fma((CPLX_FFT_PRECOMP*)pc, d); break;
-      case REIM_I_REF: reim_ifft_ref((REIM_IFFT_PRECOMP*)pc, d); break;
-      case REIM_I_AVX: reim_ifft_avx2_fma((REIM_IFFT_PRECOMP*)pc, d); break;
-      case CPLX_I_REF: cplx_ifft_ref((CPLX_IFFT_PRECOMP*)pc, d); break;
-      case CPLX_I_AVX: cplx_ifft_avx2_fma((CPLX_IFFT_PRECOMP*)pc, d); break;
-    }
-  }
-  // layout helpers: position of re / im of complex number k
-  inline uint64_t pre(uint64_t k) const { return is_cplx(impl) ? 2 * k : k; }
-  inline uint64_t pim(uint64_t k) const { return is_cplx(impl) ? 2 * k + 1 : k + m; }
-};
-
-static double bound_of(uint64_t m) { return 8.0 * (ilog2(m) + 1) * 0x1p-53; }
 
 // impulses: exact output is a table look-up
 static void impulses(Ctx& ctx, const Runner& R, const Tables& T, uint64_t k0, uint64_t k1, bool all) {
